@@ -99,6 +99,21 @@ theorem bodyLines_row (sc : Scale) (b : Balance) (i : Nat) (hi : i < b.rows.leng
   rw [List.getElem?_append_left (by simpa using hi)]
   simp [hi]
 
+/-- **Alignment.**  Every row whose own figure fits the left column ends that figure at character `9 + left`
+    (the same position for all such rows and for the `=` ruler's start of the commodity part). -/
+theorem rowLine_own_column (sc : Scale) (w : Widths) (r : BalRow) (h : (shownChars sc r.own).length ≤ w.left) :
+    ∃ rest, rowLine sc w r = (spaces 9 ++ padL w.left (shownChars sc r.own)) ++ rest ∧
+      (spaces 9 ++ padL w.left (shownChars sc r.own)).length = 9 + w.left := by
+  refine ⟨padL (fillerLen w.comm) [] ++ padL w.tree (shownChars sc r.tree) ++ commField w.comm r.comm
+    ++ (acctName r.acct).toList, ?_, ?_⟩
+  · simp only [rowLine, List.append_assoc]
+  · rw [List.length_append, padL_length _ _ h]; simp [spaces]
+
+/-- the ruler spans the left ruler, the left column and (if any commodity is shown) the commodity column -/
+theorem rulerLine_length (w : Widths) :
+    (rulerLine w).length = 9 + w.left + (if w.comm = 0 then 0 else w.comm + 1) := by
+  simp [rulerLine]
+
 /-- non-vacuity: a figure wider than its column is written whole (`padL_wide`), a narrower one right-aligned -/
 example : padL 3 "12345".toList = "12345".toList ∧ padL 7 "-1.50".toList = "  -1.50".toList := by decide
 
